@@ -5,87 +5,19 @@
 #![allow(clippy::all)]
 #![allow(dead_code)]
 extern crate libz_sys;
-
-mod api;
-mod edef;
-mod einf;
-mod eprog;
-mod gen;
-mod guard;
-mod json;
-mod props;
-mod refimpl;
-mod runner;
-mod tape;
-
-/// Global allocator wrapper: when armed, every new block is filled with a non-zero pattern so that a read of
-/// uninitialised library memory (the gz layer allocates through the Rust global allocator) changes the
-/// observable output deterministically instead of depending on heap history.
-pub struct PoisonAlloc;
-pub static POISON: std::sync::atomic::AtomicU8 = std::sync::atomic::AtomicU8::new(0);
-unsafe impl std::alloc::GlobalAlloc for PoisonAlloc {
-    unsafe fn alloc(&self, l: std::alloc::Layout) -> *mut u8 {
-        let p = unsafe { std::alloc::System.alloc(l) };
-        let v = POISON.load(std::sync::atomic::Ordering::Relaxed);
-        if v != 0 && !p.is_null() {
-            unsafe { core::ptr::write_bytes(p, v, l.size()) };
-        }
-        p
-    }
-    unsafe fn dealloc(&self, p: *mut u8, l: std::alloc::Layout) {
-        unsafe { std::alloc::System.dealloc(p, l) }
-    }
-    unsafe fn alloc_zeroed(&self, l: std::alloc::Layout) -> *mut u8 {
-        unsafe { std::alloc::System.alloc_zeroed(l) }
-    }
-    unsafe fn realloc(&self, p: *mut u8, l: std::alloc::Layout, n: usize) -> *mut u8 {
-        unsafe { std::alloc::System.realloc(p, l, n) }
-    }
-}
-#[global_allocator]
-static GLOBAL: PoisonAlloc = PoisonAlloc;
-
-use runner::*;
+use vcheck::runner::*;
+use vcheck::{known_sigs, props, refimpl, PoisonAlloc};
 use std::collections::HashSet;
 
-fn known_sigs(id: &str) -> HashSet<String> {
-    let mut s = HashSet::new();
-    let path = std::env::var("VERIF_KNOWN").unwrap_or_else(|_| "/verif/KNOWN_FINDINGS.txt".into());
-    if let Ok(txt) = std::fs::read_to_string(path) {
-        for l in txt.lines() {
-            let l = l.trim();
-            if !l.starts_with("known:") {
-                continue;
-            }
-            let mut pid = "";
-            let mut sig = "";
-            for w in l.split_whitespace() {
-                if let Some(v) = w.strip_prefix("property=") {
-                    pid = v;
-                }
-                if let Some(v) = w.strip_prefix("sig=") {
-                    sig = v;
-                }
-            }
-            if pid == id && !sig.is_empty() {
-                s.insert(sig.to_string());
-            }
-        }
-    }
-    s
-}
+#[global_allocator]
+static GLOBAL: PoisonAlloc = PoisonAlloc;
 
 fn arg(args: &[String], name: &str) -> Option<String> {
     args.iter().position(|a| a == name).and_then(|i| args.get(i + 1).cloned())
 }
 
 fn main() {
-    unsafe {
-        // keep large Vec allocations on the heap (no mmap/munmap churn per case)
-        libc::mallopt(libc::M_MMAP_THRESHOLD, 32 << 20);
-        libc::mallopt(libc::M_TRIM_THRESHOLD, 512 << 20);
-        libc::mallopt(libc::M_TOP_PAD, 64 << 20);
-    }
+    vcheck::tune_malloc();
     let args: Vec<String> = std::env::args().collect();
     if args.len() < 2 {
         eprintln!("usage: vcheck run|replay|list ...");
@@ -95,7 +27,14 @@ fn main() {
     match args[1].as_str() {
         "list" => {
             for p in props::all() {
-                println!("{}", p.id);
+                let (mut ph, mut mt) = (0usize, 0usize);
+                for (i, x) in p.phases.iter().enumerate() {
+                    if let Phase::Prop { max_tape, .. } = x {
+                        ph = i;
+                        mt = *max_tape;
+                    }
+                }
+                println!("{} prop_phase={} max_tape={}", p.id, ph, mt);
             }
         }
         "run" => {
